@@ -1,0 +1,18 @@
+//go:build verif
+
+package accounts
+
+// VerifWrap is a verification hook (compiled only with the build tag "verif").
+// It selects the Authenticate and Access implementations exactly as
+// UnaryInterceptor/StreamInterceptor do and then lets the caller wrap them, so
+// that a test harness can record every Validate and Enforce consultation made
+// by the production interceptors. It adds no behaviour of its own.
+func (c *Config) VerifWrap(auth func(Authenticate) Authenticate, access func(Access) Access) {
+	c.init()
+	if auth != nil {
+		c.auth = auth(c.auth)
+	}
+	if access != nil {
+		c.access = access(c.access)
+	}
+}
